@@ -500,6 +500,7 @@ def _arity(t):
         try: t.format(*['v'] * n); return n
         except IndexError: pass
 E_ARITY = {k: _arity(v) for k, v in E_OPS.items()}
+E_CORE3 = ['neg', 'not', '+', '**', '<', 'or', 'ifexp', '.real', 'f()', 'f"{:>3}"']
 E_CORE = ['neg', 'not', '+', '-', '*', '**', '%', '<<', '&', '|', '<', '==', 'or', 'and', 'ifexp', '.real', 'f()', 't[]',
           'lambda', 'f"{}"', 'f"{:>3}"', '(,)[0]']
 
@@ -596,19 +597,18 @@ def _space_e2e(ctx):
              % (len(ops), E_LEAVES, '' if not ctx.quick else 'core (%d) ' % len(E_CORE)))
     if not ctx.quick:
         c1 = ['x'] + [canon(op) for op in E_CORE]
+        c0 = ['x'] + [canon(op) for op in E_CORE3]
         for op in ops:
             if E_ARITY[op] == 2:
-                for a in d1:
-                    for b in c1: out.append((op, a, b))
                 for a in c1:
-                    for b in c1: out.append((op, b, a))
+                    for b in c1: out.append((op, a, b))
             if E_ARITY[op] == 3:
-                for ch in itertools.product(c1, repeat=3): out.append((op,) + ch)
+                for ch in itertools.product(c0, repeat=3): out.append((op,) + ch)
         d2 = []
         for op in E_CORE:
             n = E_ARITY[op]
             for i in range(n):
-                for c in c1[1:]:
+                for c in c0[1:]:
                     ch = list(E_LEAVES[:n]); ch[i] = c
                     d2.append((op,) + tuple(ch))
         for op in E_CORE:                            # depth 3 chains over the core alphabet
@@ -617,7 +617,8 @@ def _space_e2e(ctx):
                 for c in d2:
                     ch = list(E_LEAVES[:n]); ch[i] = c
                     out.append((op,) + tuple(ch))
-        bound += '; depth 2 with two/three compound children (second from %d core operators); depth-3 chains over the core operators' % len(E_CORE)
+        bound += ('; binary operators with two compound children from %d core operators; '
+                  'ternary operators with three from %d; depth-3 chains core x core x %d' % (len(E_CORE), len(E_CORE3), len(E_CORE3)))
     return list(dict.fromkeys(out)), bound
 
 FRONTS = ('gen', 'str', 'lam', 'filter', 'where')
